@@ -1,23 +1,30 @@
 #!/usr/bin/env python3-vt
-"""Symbolic identity service for rules_c13 (runs under the tooling interpreter, which has sympy).
+"""Symbolic identity service for rules_c01/c02/c12/c13 (runs under the tooling interpreter, which has sympy).
 
-stdin : JSON list of jobs {id, symbols: {name: "positive"|"real"}, subs: {name: expr}, term: expr, accepted: [expr, ...]}
-stdout: JSON {id: {"verdict": "equal"|"different"|"undecided", "form": index, "detail": str}}
+stdin : JSON list of jobs {id, symbols: {name: "positive"|"real"}, subs: {name: expr}, assume: [[lhs, rhs], ..], guarded: bool,
+                          term: expr, accepted: [expr, ...], relative: bool, variant_of: any}
+stdout: JSON {id: {"verdict": "equal"|"different"|"undecided", "form": index, "forms": [indices], "detail": str, "term": str}}
 
-`term` and the accepted forms are expressions over the symbols and `u` (0 < u < 1).  equal     = the difference to one accepted form
-simplifies to 0; different = for every accepted form the difference is numerically non-zero (40 digits) at an exact rational test
-point, i.e. the two real functions are not the same function; undecided = neither could be established.
+`term` and the accepted forms are expressions over the symbols and `u` (0 < u < 1, made explicit by u = v/(1+v), v > 0).
+equal     = the difference to an accepted form simplifies to 0 (uninterpreted constructor heads are compared argument-wise);
+different = for every accepted form the difference is numerically non-zero (40 digits) at an exact rational point — opaque function
+            applications count as arbitrary positive numbers — so the two real functions are not the same function;
+undecided = neither could be established.  A numeric pre-filter skips the algebra for forms that are different at the first point.
 """
 import json
 import sys
 
 import sympy as sp
+from sympy.core.function import AppliedUndef
 from sympy.parsing.sympy_parser import parse_expr
 
 TEST_POINTS = [
-    {"u": sp.Rational(3, 10), "a": sp.Rational(7, 5), "b": sp.Rational(9, 4), "c": sp.Rational(5, 3)},
-    {"u": sp.Rational(17, 23), "a": sp.Rational(2, 7), "b": sp.Rational(3, 2), "c": sp.Rational(11, 4)},
-    {"u": sp.Rational(1, 11), "a": sp.Rational(13, 3), "b": sp.Rational(1, 3), "c": sp.Rational(2, 9)},
+    {"u": sp.Rational(3, 10), "pool": [sp.Rational(7, 5), sp.Rational(9, 4), sp.Rational(5, 3), sp.Rational(73, 20), sp.Rational(27, 4), sp.Rational(11, 7), sp.Rational(19, 8)]},
+    {"u": sp.Rational(17, 23), "pool": [sp.Rational(2, 7), sp.Rational(3, 2), sp.Rational(11, 4), sp.Rational(25, 14), sp.Rational(9, 2), sp.Rational(13, 5), sp.Rational(8, 3)]},
+    {"u": sp.Rational(1, 11), "pool": [sp.Rational(13, 3), sp.Rational(1, 3), sp.Rational(2, 9), sp.Rational(14, 3), sp.Rational(1, 1), sp.Rational(17, 6), sp.Rational(5, 9)]},
+    # every symbol inside (0, 1): probabilities, unit draws (keeps sqrt(p (1 - p)), ln(1 - u), ... real)
+    {"u": sp.Rational(2, 5), "pool": [sp.Rational(3, 10), sp.Rational(7, 10), sp.Rational(2, 5), sp.Rational(1, 7), sp.Rational(5, 8), sp.Rational(9, 11), sp.Rational(4, 9)]},
+    {"u": sp.Rational(5, 7), "pool": [sp.Rational(4, 5), sp.Rational(1, 6), sp.Rational(5, 9), sp.Rational(3, 8), sp.Rational(2, 11), sp.Rational(6, 7), sp.Rational(1, 3)]},
 ]
 
 
@@ -25,7 +32,7 @@ def main():
     jobs = json.load(sys.stdin)
     import multiprocessing
     import os
-    n = min(12, os.cpu_count() or 2, max(1, len(jobs) // 4))
+    n = min(14, os.cpu_count() or 2, max(1, len(jobs) // 3))
     if n > 1:
         chunks = [jobs[i::n] for i in range(n)]
         with multiprocessing.get_context("fork").Pool(n) as pool:
@@ -40,7 +47,6 @@ def main():
 
 def peel(x, y):
     """Pairs of corresponding arguments under common uninterpreted function heads; None if the heads differ."""
-    from sympy.core.function import AppliedUndef
     if isinstance(x, AppliedUndef) or isinstance(y, AppliedUndef):
         if not (isinstance(x, AppliedUndef) and isinstance(y, AppliedUndef)) or x.func.__name__ != y.func.__name__ or len(x.args) != len(y.args):
             return None
@@ -54,158 +60,160 @@ def peel(x, y):
     return [(x, y)]
 
 
+def is_zero(d):
+    for f in (lambda x: sp.simplify(x), lambda x: sp.simplify(sp.powsimp(sp.expand_log(x, force=True), force=True)),
+              lambda x: sp.simplify(sp.expand(sp.expand_power_base(x, force=True)))):
+        try:
+            if f(d) == 0:
+                return True
+        except Exception:     # noqa: BLE001
+            pass
+    return False
+
+
 def solve(jobs):
     out = {}
     for job in jobs:
-        u = sp.Symbol("u", positive=True)
-        vpos = sp.Symbol("v_", positive=True)
-        env = {"u": u, "pi": sp.pi, "ln": sp.log, "log": sp.log, "exp": sp.exp, "sqrt": sp.sqrt, "tan": sp.tan, "Rational": sp.Rational,
-               "eps_": sp.Symbol("eps_", positive=True), "minpos_": sp.Symbol("minpos_", positive=True), "maxval_": sp.Symbol("maxval_", positive=True),
-               "log1p_": (lambda x: sp.log(1 + x))}
-        names = []
-        for name, kind in job["symbols"].items():
-            env[name] = sp.Symbol(name, positive=(kind == "positive"), real=True)
-            names.append(name)
-        # derived symbols (e.g. mode = min + d1) are substituted first
-        subs = {}
-        for name, e in job.get("subs", {}).items():
-            subs[name] = parse_expr(e, local_dict=env, evaluate=True)
-            env[name] = subs[name]
         try:
-            term = parse_expr(job["term"], local_dict=env, evaluate=True)
+            out[job["id"]] = solve_one(job)
         except Exception as ex:      # noqa: BLE001
-            out[job["id"]] = {"verdict": "undecided", "form": None, "detail": "term not parsed: %s" % ex}
-            continue
-        # equations between parameters that hold on this path (e.g. a fast path taken when inv_shape == 1/2): solve and substitute
-        eqsub = {}
-        unsolved = bool(job.get("guarded"))
-        for lhs, rhs in job.get("assume", []):
-            try:
-                e = parse_expr(lhs, local_dict=env, evaluate=True) - parse_expr(rhs, local_dict=env, evaluate=True)
-                e = e.subs(eqsub)
-                cands = [x for x in e.free_symbols if x.name in names]
-                sol = None
-                for x in sorted(cands, key=lambda q: q.name):
-                    r_ = sp.solve(e, x, dict=True)
-                    if len(r_) == 1:
-                        sol = (x, r_[0][x])
-                        break
-                if sol is None:
-                    unsolved = True
-                else:
-                    eqsub[sol[0]] = sol[1]
-            except Exception:     # noqa: BLE001
-                unsolved = True
-        term = term.subs(eqsub)
-        verdict, form, detail = "undecided", None, ""
-        diffs = []
-        eq_forms = []
-        for i, acc in enumerate(job["accepted"]):
-            try:
-                a = parse_expr(acc, local_dict=env, evaluate=True).subs(eqsub)
-            except Exception:      # noqa: BLE001
-                diffs.append(None)
-                continue
-            # uninterpreted constructors (Result_Ok(LogNormal(Normal_new(mu, sigma)))): equal iff the heads agree and the arguments are equal
-            pairs = peel(term, a)
-            if pairs is None:
-                diffs.append(sp.Integer(1))          # different heads / arities: certainly different
-                continue
-            if len(pairs) > 1 or pairs[0] != (term, a):
-                allz = True
-                worst = None
-                for (x_, y_) in pairs:
-                    dd = (x_ - y_).subs(u, vpos / (1 + vpos))
-                    z_ = False
-                    for f in (lambda q: sp.simplify(q), lambda q: sp.simplify(sp.powsimp(sp.expand_log(q, force=True), force=True))):
-                        try:
-                            if f(dd) == 0:
-                                z_ = True
-                                break
-                        except Exception:     # noqa: BLE001
-                            pass
-                    if not z_:
-                        allz = False
-                        worst = dd
-                        break
-                if allz:
-                    if verdict != "equal":
-                        verdict, form, detail = "equal", i, "all arguments of accepted[%d] are equal" % i
-                    eq_forms.append(i)
-                    if job.get("variant_of") is None:
-                        break
-                    continue
-                diffs.append(worst)
-                continue
-            d = term - a
-            # 0 < u < 1 is made explicit by u = v/(1+v), v > 0 (so that 1 - u is known to be positive)
-            d = d.subs(u, vpos / (1 + vpos))
-            ok = False
-            for f in (lambda x: sp.simplify(x), lambda x: sp.simplify(sp.powsimp(sp.expand_log(x, force=True), force=True)),
-                      lambda x: sp.simplify(sp.expand(sp.expand_power_base(x, force=True)))):
-                try:
-                    if f(d) == 0:
-                        ok = True
-                        break
-                except Exception:     # noqa: BLE001
-                    pass
-            if ok:
-                if verdict != "equal":
-                    verdict, form, detail = "equal", i, "term - accepted[%d] simplifies to 0" % i
-                eq_forms.append(i)
-                if not job.get("variant_of") is not None:
-                    break
-                continue
-            diffs.append(d)
-        if verdict != "equal":
-            # refutation: non-zero at an exact rational point for every accepted form
-            free = sorted({s for d in diffs if d is not None for s in d.free_symbols} | set(term.free_symbols), key=lambda s: s.name)
-            all_diff = True
-            where = ""
-            if any(d is None for d in diffs):
-                diffs = []
-            # opaque sub-variates / helper calls inside arithmetic (Zipf_inv_cdf(self, p)): each distinct application is an arbitrary positive number
-            from sympy.core.function import AppliedUndef
-            apps = sorted({a_ for d in diffs for a_ in d.atoms(AppliedUndef)} | set(term.atoms(AppliedUndef)), key=str)
-            if apps:
-                repl = {a_: sp.Symbol("opq%d_" % k_, positive=True) for k_, a_ in enumerate(apps)}
-                diffs = [d.xreplace(repl) for d in diffs]
-                term = term.xreplace(repl)
-                free = sorted({s_ for d in diffs for s_ in d.free_symbols} | set(term.free_symbols), key=lambda s_: s_.name)
-            for d in diffs:
-                nz = False
-                for tp in TEST_POINTS:
-                    vals = {}
-                    pool = [tp["a"], tp["b"], tp["c"], tp["a"] + tp["b"], tp["b"] * 3]
-                    for j, s in enumerate(x for x in free if x.name != "u"):
-                        vals[s] = pool[j % len(pool)]
-                    vals[u] = tp["u"]
-                    vals[vpos] = tp["u"] / (1 - tp["u"])
-                    try:
-                        v = sp.N(d.subs(vals), 40)
-                        # a relative difference below 1e-9 may be the rounding of a literal constant: not a refutation
-                        scale_ = 1
-                        if job.get("relative"):
-                            try:
-                                sc_ = sp.N(term.subs(u, vpos / (1 + vpos)).subs(vals), 20)
-                                scale_ = 1 + abs(sc_) if sc_.is_number else 1
-                            except Exception:      # noqa: BLE001
-                                scale_ = 1
-                        if v.is_number and abs(v) > (sp.Float("1e-9") * scale_ if job.get("relative") else sp.Float("1e-25")):
-                            nz = True
-                            where = "at %s the difference is %s" % ({str(k): str(v_) for k, v_ in vals.items()}, sp.N(v, 8))
-                            break
-                    except Exception:      # noqa: BLE001
-                        pass
-                if not nz:
-                    all_diff = False
-                    break
-            if all_diff and diffs and not unsolved:
-                verdict, detail = "different", where + (" (with %s)" % {str(k): str(v_) for k, v_ in eqsub.items()} if eqsub else "")
-            else:
-                detail = "no accepted form shown equal, and not refuted"
-        out[job["id"]] = {"verdict": verdict, "form": form, "forms": eq_forms, "detail": detail, "term": str(term)}
+            out[job["id"]] = {"verdict": "undecided", "form": None, "forms": [], "detail": "internal: %s" % str(ex)[:200], "term": job.get("term", "")[:200]}
     return out
+
+
+def solve_one(job):
+    u = sp.Symbol("u", positive=True)
+    vpos = sp.Symbol("v_", positive=True)
+    env = {"u": u, "pi": sp.pi, "ln": sp.log, "log": sp.log, "exp": sp.exp, "sqrt": sp.sqrt, "tan": sp.tan, "Rational": sp.Rational,
+           "eps_": sp.Symbol("eps_", positive=True), "minpos_": sp.Symbol("minpos_", positive=True), "maxval_": sp.Symbol("maxval_", positive=True),
+           "log1p_": (lambda x: sp.log(1 + x))}
+    names = []
+    for name, kind in job["symbols"].items():
+        env[name] = sp.Symbol(name, positive=(kind == "positive"), real=True)
+        names.append(name)
+    for name, e in job.get("subs", {}).items():
+        env[name] = parse_expr(e, local_dict=env, evaluate=True)
+    try:
+        term = parse_expr(job["term"], local_dict=env, evaluate=True)
+    except Exception as ex:      # noqa: BLE001
+        return {"verdict": "undecided", "form": None, "forms": [], "detail": "term not parsed: %s" % ex, "term": job["term"][:200]}
+    eqsub = {}
+    unsolved = bool(job.get("guarded"))
+    for lhs, rhs in job.get("assume", []):
+        try:
+            e = (parse_expr(lhs, local_dict=env, evaluate=True) - parse_expr(rhs, local_dict=env, evaluate=True)).subs(eqsub)
+            sol = None
+            for x in sorted([x for x in e.free_symbols if x.name in names], key=lambda q: q.name):
+                r_ = sp.solve(e, x, dict=True)
+                if len(r_) == 1:
+                    sol = (x, r_[0][x])
+                    break
+            if sol is None:
+                unsolved = True
+            else:
+                eqsub[sol[0]] = sol[1]
+        except Exception:     # noqa: BLE001
+            unsolved = True
+    term = term.subs(eqsub)
+    forms = []
+    for acc in job["accepted"]:
+        try:
+            forms.append(parse_expr(acc, local_dict=env, evaluate=True).subs(eqsub))
+        except Exception:      # noqa: BLE001
+            forms.append(None)
+    pair_lists = []
+    for a in forms:
+        pair_lists.append("unparsed" if a is None else peel(term, a))      # None = different heads
+    apps = set(term.atoms(AppliedUndef))
+    for a in forms:
+        if a is not None:
+            apps |= set(a.atoms(AppliedUndef))
+    repl = {a_: sp.Symbol("opq%d_" % k_, positive=True) for k_, a_ in enumerate(sorted(apps, key=str))}
+    # every symbol that can occur after opaque applications are replaced (also those inside their arguments, which peel() exposes)
+    base = [term] + [f for f in forms if f is not None]
+    syms = set(repl.values()) | {vpos}
+    for x in base:
+        syms |= {s_ for s_ in x.free_symbols if s_ != u}
+    allsyms = sorted(syms, key=lambda s_: s_.name)
+
+    def point(tp):
+        vals = {}
+        j = 0
+        for s_ in allsyms:
+            if s_ == vpos:
+                vals[s_] = tp["u"] / (1 - tp["u"])
+            else:
+                vals[s_] = tp["pool"][j % len(tp["pool"])] + sp.Rational(j // len(tp["pool"]), 3)
+                j += 1
+        return vals
+
+    def nval(expr, vals):
+        try:
+            v = sp.N(expr.xreplace(repl).subs(u, vpos / (1 + vpos)).subs(vals), 40)
+            return v if v.is_number and v.is_finite else None
+        except Exception:      # noqa: BLE001
+            return None
+
+    relative = bool(job.get("relative"))
+
+    def differs_at(pairs, vals):
+        for (x_, y_) in pairs:
+            dv = nval(x_ - y_, vals)
+            if dv is None:
+                return None
+            tol = sp.Float("1e-25")
+            if relative:
+                sc = nval(x_, vals)
+                tol = sp.Float("1e-9") * (1 + (abs(sc) if sc is not None else 0))
+            if abs(dv) > tol:
+                return True
+        return False
+
+    verdict, form, detail = "undecided", None, ""
+    eq_forms = []
+    points = [point(tp) for tp in TEST_POINTS]
+    refuted = []
+    for i, pl in enumerate(pair_lists):
+        if pl == "unparsed":
+            refuted.append(None)
+            continue
+        if pl is None:
+            refuted.append("different constructor / function heads")
+            continue
+        # numeric pre-filter: the first test point at which both sides are real numbers decides whether the algebra is tried at all
+        w = None
+        for vals in points:
+            d_ = differs_at(pl, vals)
+            if d_ is True:
+                w = "at %s the two sides differ" % {str(k): str(v_) for k, v_ in vals.items()}
+                break
+            if d_ is False:
+                break
+        if w is not None:
+            refuted.append(w)
+            continue
+        if all(is_zero((x_ - y_).subs(u, vpos / (1 + vpos))) for x_, y_ in pl):
+            if verdict != "equal":
+                verdict, form, detail = "equal", i, "term - accepted[%d] simplifies to 0" % i
+            eq_forms.append(i)
+            refuted.append(None)
+            if job.get("variant_of") is None:
+                break
+            continue
+        # numerically equal at one point but not shown equal: different at another point?
+        w = None
+        for vals in points:
+            if differs_at(pl, vals) is True:
+                w = "at %s the two sides differ" % {str(k): str(v_) for k, v_ in vals.items()}
+                break
+        refuted.append(w)
+    if verdict != "equal":
+        if refuted and len(refuted) == len(pair_lists) and all(r_ is not None for r_ in refuted) and not unsolved:
+            verdict = "different"
+            detail = refuted[0][:300] + (" (with %s)" % {str(k): str(v_) for k, v_ in eqsub.items()} if eqsub else "")
+        else:
+            detail = "no accepted form shown equal, and not refuted"
+    return {"verdict": verdict, "form": form, "forms": eq_forms, "detail": detail, "term": str(term)[:600]}
 
 
 main()
